@@ -286,6 +286,17 @@ def port_registration_rules(ctx, rule='R6'):
         want = {'cb': 'cb', 'port': 'port', 'channel': 0, 'port_mask': 0xff, 'channel_mask': 0}
         ctx.inst(rule, f, 'port-only-masks', vals == want,
                  'port-only (un)registration must use channel 0, masks (0xFF, 0x00) - defaults of %s included; effective arguments %s' % (callee, vals))
+        # ... and every path of the function goes through that one delegation: no branch of its own that removes (or adds) entries by a
+        # looser rule (`if not port:` also catches port 0) and no early exit before it
+        gf_ = cfg_of(f)
+        dn_ = gf_.node_of(cs[0])
+        own = [norm(c_)[:60] for c_ in walk_own(f.node) if isinstance(c_, ast.Call) and isinstance(c_.func, ast.Attribute) and norm(c_.func.value) == 'self.cb' and
+               c_.func.attr in ('remove', 'append', 'pop', 'clear', 'insert', 'extend')] + \
+              [norm(s_)[:60] for s_ in walk_own(f.node) if isinstance(s_, (ast.Assign, ast.AugAssign, ast.Delete)) and
+               any(norm(t_).startswith('self.cb') for t_ in (s_.targets if not isinstance(s_, ast.AugAssign) else [s_.target]))]
+        every = dn_ is not None and ('n', dn_.id) in (gf_.dom().get(('n', gf_.exit.id)) or ())
+        ctx.inst(rule, f, 'only-through-header-variant', not own and every,
+                 '%s changes the table only by its one call of %s, on every path; own edits: %s' % (f.qualname, callee, own or 'none'))
 
 
 def mentions(node, var):
